@@ -11,6 +11,7 @@ Top-level clauses (membership, is_max, denotes_*) are written from the property 
 from pyvc.contract import Contract, Lemma
 
 F = "csvpath/scanning/scanner.py"
+USES = ["shared"]
 
 STATE = {"self.from_line": "optint", "self.to_line": "optint", "self.all_lines": "bool", "self.these": "list[int]"}
 
@@ -35,7 +36,7 @@ MACROS = {
 }
 
 
-def contracts():
+def scanner_contracts():
     cs = []
     # ------------------------------------------------------------------ includes / is_last
     cs.append(Contract(
@@ -227,6 +228,20 @@ def contracts():
         doc={"denotes_all": "C02: '* every line'"},
     ))
     return cs
+
+
+def contracts():
+    # the per-line consumer of the scanner and the line counter belong to this property too
+    from . import core
+    extra = [c for c in core.contracts() if c.interface or c.ident in ("CsvPath._consider_line", "LineMonitor.next_line", "CsvPath.next")]
+    return scanner_contracts() + extra
+
+
+def bounded(tier, seed):
+    return [{"name": "C02.bounded", "script": "native/bounded_C02.py", "timeout": 3000,
+             "scope": "every scan part of the property's space with bounds 0..N+2 and <=3 '+' items (parse half: all of them on the real PLY Scanner); "
+                      "run half: files of N<=4 (thorough 7) records, every single blank position (thorough: every subset of <=3), "
+                      "a 1-in-12 sample of the scan parts in quick, all in thorough"}]
 
 
 def lemmas():
